@@ -85,11 +85,18 @@ Definition ob_set (W : N) (fns : list fn_item) (f : field) : bool :=
 Definition absent (name : string) (fns : list fn_item) : bool :=
   match find_fn name fns with None => true | Some _ => false end.
 
+(** A range list that names a bit twice is accepted by the macro on purpose but is outside every
+    guarantee about writes (C04: "lists that name the same bit twice are outside this
+    guarantee"): its setters are not held to the scatter specification. *)
+Definition dup_bits (f : field) : bool := negb (nodup_bits (ranges f)).
+
 Definition field_obligations (W : N) (fns : list fn_item) (f : field) : list (string * bool) :=
   (if f_get f then [("get:" ++ f_name f, ob_getter W fns f)]
    else [("noget:" ++ f_name f, absent (f_name f) fns)])
   ++
-  (if f_set f then [("with:" ++ f_name f, ob_with W fns f); ("set:" ++ f_name f, ob_set W fns f)]
+  (if f_set f then
+     if dup_bits f then [("dupbits:" ++ f_name f, true); ("dupbits:" ++ f_name f, true)]
+     else [("with:" ++ f_name f, ob_with W fns f); ("set:" ++ f_name f, ob_set W fns f)]
    else [("nowith:" ++ f_name f, absent (with_name f) fns); ("noset:" ++ f_name f, absent (set_name f) fns)]).
 
 Definition ob_raw_value (W : N) (fns : list fn_item) : bool :=
